@@ -60,7 +60,9 @@ spec fn decide_post<'a>(name: Name, e: Option<&'a Evaluated>, i: Option<&'a Inst
 // HashMap<Name, T>: ghost map from name ids to values; iteration yields each key exactly once, in an arbitrary order
 pub struct NameMap<T> { pub m: Ghost<Map<u64, T>> }
 pub struct KeysIter { pub ids: Ghost<Seq<u64>> }
-pub struct NameSet { pub s: Ghost<Set<u64>> }
+pub struct HashSet<T> { pub s: Ghost<Set<u64>>, pub _t: core::marker::PhantomData<T> }     // HashSet<Name>
+pub trait FromKeyIds: Sized { spec fn key_ids(&self) -> Set<u64>; }
+impl FromKeyIds for HashSet<Name> { open spec fn key_ids(&self) -> Set<u64> { self.s@ } }
 pub struct NameIter { pub ids: Ghost<Seq<u64>> }
 pub struct FilterMapped<'a> { pub out: Ghost<Seq<Update<'a>>> }
 impl<T> NameMap<T> {
@@ -78,11 +80,11 @@ impl KeysIter {
     pub fn chain(self, other: KeysIter) -> (r: KeysIter) ensures forall|n: u64| #![trigger r.ids@.contains(n)] #![trigger self.ids@.contains(n)] #![trigger other.ids@.contains(n)] r.ids@.contains(n) <==> (self.ids@.contains(n) || other.ids@.contains(n)) { unimplemented!() }
     #[verifier::external_body]
     pub fn cloned(self) -> (r: KeysIter) ensures forall|n: u64| #![trigger r.ids@.contains(n)] #![trigger self.ids@.contains(n)] r.ids@.contains(n) <==> self.ids@.contains(n) { unimplemented!() }
-    // .collect::<HashSet<_>>()
+    // .collect::<HashSet<_>>()  /  `let x: HashSet<_> = ...collect();`
     #[verifier::external_body]
-    pub fn collect_set(self) -> (r: NameSet) ensures forall|n: u64| #![trigger r.s@.contains(n)] #![trigger self.ids@.contains(n)] r.s@.contains(n) <==> self.ids@.contains(n) { unimplemented!() }
+    pub fn collect<B: FromKeyIds>(self) -> (r: B) ensures forall|n: u64| #![trigger r.key_ids().contains(n)] #![trigger self.ids@.contains(n)] r.key_ids().contains(n) <==> self.ids@.contains(n) { unimplemented!() }
 }
-impl NameSet {
+impl HashSet<Name> {
     #[verifier::external_body]
     pub fn iter(&self) -> (r: NameIter) ensures forall|n: u64| #![trigger r.ids@.contains(n)] #![trigger self.s@.contains(n)] r.ids@.contains(n) <==> self.s@.contains(n) { unimplemented!() }
 }
@@ -124,7 +126,6 @@ spec fn all_explained<'a>(ev: Map<u64, Evaluated>, inst: Map<u64, Installed>, ou
 
 impl Policies<Evaluated> {
 //@extract id=policies_compare file=junos-agent/src/policies/compare.rs impl=/impl Policies<Evaluated>/ fn=compare rules=R1,R7,R17 r7map=option
-//@+ sub=/.collect::<HashSet<_>>()=>.collect_set()/
 //@sig fn compare<'a>(&'a self, installed: &'a Policies<Installed>) -> (res: Updates<'a>)
 //@contract
         ensures
